@@ -188,7 +188,7 @@ func TestZZTurnvcReplay(t *testing.T) {
 	rep["replay_outputs"] = outs
 	// evaluate the clause on the concrete pair
 	fx := &FnCtx{eng: e, fn: fn, con: con, obls: map[string]*Obligation{}, heapSorts: map[string]string{}, unsup: map[string]bool{}, notes: map[string]bool{},
-		params: map[string]*Val{}, keySorts: map[string]string{}, locksTouched: map[string]bool{}, covers: map[string]bool{}, exercised: map[*AtCall]bool{}, loops: map[*ssa.BasicBlock]*loopInfo{}}
+		params: map[string]*Val{}, keySorts: map[string]string{}, locksTouched: map[string]bool{}, covers: map[string]bool{}, exercised: map[*AtCall]bool{}, ipdomCache: map[*ssa.Function]map[*ssa.BasicBlock]*ssa.BasicBlock{}, joinCache: map[joinKey]*ssa.BasicBlock{}, loops: map[*ssa.BasicBlock]*loopInfo{}}
 	fx.sol = NewSolver(10000)
 	defer fx.sol.Close()
 	st := &State{fx: fx, env: map[ssa.Value]*Val{}, locs: map[ssa.Value]*Loc{}, heap: map[string]string{}, kep: map[string]int{}}
